@@ -56,4 +56,13 @@ theorem reactor_prepare_guards :
     Facts.evreactor_peer_behind = "peerHeight <= evHeight" ∧
     Facts.evreactor_too_old = "ageNumBlocks > params.MaxAgeNumBlocks" := by decide
 
+/-- `ApplyBlock`: validate, update the evidence pool, THEN save the state (model:
+`applyBlockSteps`; `Props.C11.applyblock_crash_safe` is false for the other order). -/
+theorem applyblock_order : Facts.applyblock_order =
+    ["validateBlock", "blockExec.evpool.Update", "blockExec.store.Save"] := by decide
+
+/-- the handshake replays stored blocks with an empty evidence pool (model: `Op.replay` does not
+touch the pool; known finding `replay_skips_pool_fails`). -/
+theorem replay_uses_empty_pool : Facts.replay_evpool_empty = true := by decide
+
 end Tmv.Expect.C11
